@@ -476,3 +476,44 @@ def join_and_fstrings(s, t, x):
     joined = ", ".join([s, t])
     return joined == s + ", " + t and f"[{s}]" == "[" + s + "]" and ", ".join([s]) == s and "".join([]) == ""
 
+
+
+# --- the asyncio / contextvars model (A-ASYNCIO M1, M2, M4) against CPython --------------------------------------------------
+from contextvars import ContextVar  # noqa: E402
+
+_cv: ContextVar = ContextVar("engine_lemma_cv", default=None)
+
+
+@lemma(dict(a=Int(-3, 3), b=Int(-3, 3)), prop=["ENGINE"])
+async def gathered_coroutines_run_in_copies_of_the_context(a, b):
+    _cv.set(a)
+
+    async def child(x):
+        before = _cv.get()
+        _cv.set(x)
+        return [before, _cv.get()]
+    r = await asyncio.gather(child(b), child(b + 1))
+    return _cv.get() == a and r[0] == [a, b] and r[1] == [a, b + 1]
+
+
+@lemma(dict(a=Int(-3, 3), b=Int(-3, 3)), prop=["ENGINE"])
+async def an_awaited_coroutine_shares_the_callers_context(a, b):
+    _cv.set(a)
+
+    async def child(x):
+        before = _cv.get()
+        _cv.set(x)
+        return before
+    seen = await child(b)
+    return seen == a and _cv.get() == b
+
+
+@lemma(dict(a=Int(-3, 3), b=Int(-3, 3)), prop=["ENGINE"], canary=True)
+async def canary_a_gathered_coroutine_changes_the_callers_context(a, b):
+    _cv.set(a)
+
+    async def child(x):
+        _cv.set(x)
+        return x
+    await asyncio.gather(child(b))
+    return _cv.get() == b
